@@ -17,6 +17,11 @@ CLAIMED = {
    "DESIGN.md §6 C10",
    "Lean kernel; axioms propext/Classical.choice/Quot.sound only; hand-written model tied by correspondence; slice::partition_point, String::replace and format! padding modelled by their contracts.",
    "Lean 4 model + theorems against counting definitions + exhaustive correspondence with pest Position/Span/LineIndex/Error"),
+ "C13": ("other",
+   "Lean 4 model of PrattParserMap::expr/nud/led/lbp, PrattParser::op / ConstPrattParser::new_const level assignment and PrecClimber::climb_rec (three-valued results: ok / Rust panic / model fuel), with the classical shunting-yard machine as specification; theorems (pratt_total, pratt_yield, pratt_eq_shuntingYard, levels_iso, const_eq_pratt, climber_eq) stated and being proved; tied to the code by correspondence on random tables x sequences through PairsBuilder (all three parsers), with a Rust shunting-yard evaluated on the implementation as oracle.",
+   "DESIGN.md §6 C13",
+   "Lean kernel; axioms propext/Classical.choice/Quot.sound only; hand-written model tied by correspondence; Prec as Nat (u32 overflow out of scope).",
+   "Lean 4 model + simulation proof against shunting-yard + random correspondence with PrattParser/ConstPrattParser/PrecClimber"),
 }
 REASON_TODO = "not claimed yet: machinery for this property is not built in the committed tree (planned in DESIGN.md §6); no check is registered rather than an unsound one"
 
